@@ -1,8 +1,8 @@
 from .model import SCHEMA, Spec
-from . import c_dimension, c_prefix, c_unit
+from . import c_dimension, c_prefix, c_unit, c_quantity
 
 CONTRACTS = {}
-for _m in (c_dimension, c_prefix, c_unit):
+for _m in (c_dimension, c_prefix, c_unit, c_quantity):
     CONTRACTS.update(_m.CONTRACTS)
 SPEC = Spec()
 
